@@ -29,10 +29,10 @@ PAIRS = [(g, h) for i, g in enumerate(GROUPS) for h in GROUPS[i + 1:]]
 def plan(tier):
     if tier == 'quick':
         return [(1, ('plain',), 'RBWNX', 2, True), (2, ('plain', 'rainbow'), 'RBWN', 2, True),
-                (3, ('plain',), 'RWNT', 2, False), (3, ('rainbow',), 'BUD', 1, True), (2, ('plain',), 'UDXTZ', 2, False), (3, ('parsed',), 'RW', 2, True), (2, ('plain',), 'WN', 3, False), (2, ('plain',), 'RB', 3, False), (3, ('dup1', 'dup2'), 'RW', 1, False), (4, ('rs1', 'rs2'), 'RBW', 1, False), (2, ('wide', 'wide2'), 'RW', 1, False)]
+                (3, ('plain',), 'RWNT', 2, False), (3, ('rainbow',), 'BUD', 1, True), (2, ('plain',), 'UDXTZ', 2, False), (3, ('parsed',), 'RW', 2, True), (2, ('plain',), 'WN', 3, False), (2, ('plain',), 'RB', 3, False), (3, ('dup1', 'dup2'), 'RW', 1, False), (4, ('rs1', 'rs2'), 'RBW', 1, False), (2, ('wide', 'wide2'), 'RW', 1, False), (3, ('plain',), 'Wyq', 2, False)]
     return [(1, ('plain',), 'RBWNXZ', 3, True), (2, ('plain', 'rainbow'), 'RBWNX', 2, True), (2, ('plain',), 'RWN', 3, True),
             (3, ('plain', 'rainbow'), 'RBWNT', 2, True), (3, ('plain',), 'RWN', 3, False), (2, ('plain',), 'UDXTZ', 2, True),
-            (4, ('plain', 'rainbow'), 'RWN', 2, False), (3, ('parsed',), 'RBWN', 2, True), (4, ('parsed',), 'RW', 2, False), (3, ('dup1', 'dup2'), 'RW', 1, False), (4, ('rs1', 'rs2'), 'RBW', 2, False), (2, ('wide', 'wide2'), 'RW', 2, False), (3, ('wide',), 'RW', 1, False)]
+            (4, ('plain', 'rainbow'), 'RWN', 2, False), (3, ('parsed',), 'RBWN', 2, True), (4, ('parsed',), 'RW', 2, False), (3, ('dup1', 'dup2'), 'RW', 1, False), (4, ('rs1', 'rs2'), 'RBW', 2, False), (2, ('wide', 'wide2'), 'RW', 2, False), (3, ('wide',), 'RW', 1, False), (3, ('plain', 'rainbow'), 'WNyq', 2, False), (2, ('plain',), 'Wyq', 3, False)]
 
 
 def tasks(tier, seed):
@@ -41,6 +41,15 @@ def tasks(tier, seed):
         out.append({'kind': 'bridge', 'g': g, 'h': h})
     out.append({'kind': 'bridge1'})
     return out
+
+
+def complete_groups(code):
+    """The setting text consists of complete, known SGR parameter groups only (one, or several in a verbatim setting):
+    what a conforming terminal reads unambiguously."""
+    if any('\x40' <= ch <= '\x7e' for ch in code):
+        return False
+    groups, _st, amb, dropped = rt.ref_groups(code)
+    return bool(groups) and not amb and not dropped
 
 
 def values_of(g):
@@ -158,8 +167,7 @@ def run_task(task, acc):
         acc.evaluations += 1
         acc.transitions += 19
         cells = model.alpha_codes(v)[1]
-        from .c03 import classify
-        if any(classify(c) != 'wf' for cell in cells for c in cell):
+        if any(not complete_groups(c) for cell in cells for c in cell):
             acc.counters['skipped_not_wellformed'] += 1     # the property is about well-formed settings (C15 has the rest)
             continue
         explore.shape_counters(acc, cells)
